@@ -59,6 +59,9 @@ inductive Rule where
   | impliesSimplify
   | equivSimplify
   | boolSimplify
+  | iteSimplify
+  | connectiveDef
+  | subproof
   deriving DecidableEq, Repr
 
 def Rule.ofName : String → Option Rule
@@ -112,6 +115,9 @@ def Rule.ofName : String → Option Rule
   | "verit_implies_simplify" => some .impliesSimplify
   | "verit_equiv_simplify" => some .equivSimplify
   | "verit_bool_simplify" => some .boolSimplify
+  | "verit_ite_simplify" => some .iteSimplify
+  | "verit_connective_def" => some .connectiveDef
+  | "verit_subproof" => some .subproof
   | _ => none
 
 def Rule.name : Rule → String
@@ -165,8 +171,11 @@ def Rule.name : Rule → String
   | .impliesSimplify => "verit_implies_simplify"
   | .equivSimplify => "verit_equiv_simplify"
   | .boolSimplify => "verit_bool_simplify"
+  | .iteSimplify => "verit_ite_simplify"
+  | .connectiveDef => "verit_connective_def"
+  | .subproof => "verit_subproof"
 
-def Rule.all : List Rule := [.notOr, .notAnd, .andRule, .orRule, .impliesRule, .notImplies1, .notImplies2, .equiv1, .equiv2, .notEquiv1, .notEquiv2, .ite1, .ite2, .notIte1, .notIte2, .contraction, .notNot, .andPos, .andNeg, .orPos, .orNeg, .impliesPos, .impliesNeg1, .impliesNeg2, .equivPos1, .equivPos2, .equivNeg1, .equivNeg2, .xorPos1, .xorPos2, .xorNeg1, .xorNeg2, .itePos1, .itePos2, .iteNeg1, .iteNeg2, .falseRule, .thResolution, .eqReflexive, .laDisequality, .laRwEq, .eqTransitive, .transRule, .eqCongruent, .notSimplify, .andSimplify, .orSimplify, .impliesSimplify, .equivSimplify, .boolSimplify]
+def Rule.all : List Rule := [.notOr, .notAnd, .andRule, .orRule, .impliesRule, .notImplies1, .notImplies2, .equiv1, .equiv2, .notEquiv1, .notEquiv2, .ite1, .ite2, .notIte1, .notIte2, .contraction, .notNot, .andPos, .andNeg, .orPos, .orNeg, .impliesPos, .impliesNeg1, .impliesNeg2, .equivPos1, .equivPos2, .equivNeg1, .equivNeg2, .xorPos1, .xorPos2, .xorNeg1, .xorNeg2, .itePos1, .itePos2, .iteNeg1, .iteNeg2, .falseRule, .thResolution, .eqReflexive, .laDisequality, .laRwEq, .eqTransitive, .transRule, .eqCongruent, .notSimplify, .andSimplify, .orSimplify, .impliesSimplify, .equivSimplify, .boolSimplify, .iteSimplify, .connectiveDef, .subproof]
 
 /-- `eval` of the macro registered under the rule name; `sizes` is only read by resolution -/
 def evalRule : Rule → List Tm → List Nat → List Seq → Except Err Seq
@@ -220,6 +229,9 @@ def evalRule : Rule → List Tm → List Nat → List Seq → Except Err Seq
   | .impliesSimplify, cl, _, _ => Holpy.C18.impliesSimplify cl
   | .equivSimplify, cl, _, _ => Holpy.C18.equivSimplify cl
   | .boolSimplify, cl, _, _ => Holpy.C18.boolSimplify cl
+  | .iteSimplify, cl, _, _ => Holpy.C18.iteSimplify cl
+  | .connectiveDef, cl, _, _ => Holpy.C18.connectiveDef cl
+  | .subproof, cl, _, ps => Holpy.C18.subproof cl ps
 
 /-- the goal of a simplification rule `lhs <--> rhs` is `equals` at type bool -/
 def goalIsIff : List Tm → Bool
@@ -238,6 +250,12 @@ def wellKinded : Rule → List Tm → List Seq → Bool
   | .orSimplify, cl, _ => goalIsIff cl
   | .impliesSimplify, cl, _ => goalIsIff cl
   | .boolSimplify, cl, _ => goalIsIff cl
+  | .iteSimplify, cl, _ => goalIsIff cl || (match goalEq cl with     -- an if-then-else at another type: a case that holds at every type
+    | some (_, l, r) => compareIteEv l r || compareIteEv r l
+    | none => true)
+  | .connectiveDef, cl, _ => goalIsIff cl && (match goalEq cl with
+    | some (_, l, _) => notFoEq l
+    | none => true)
   | .equivSimplify, cl, _ => goalIsIff cl && (match goalEq cl with      -- … and so are the equivalences it rewrites
     | some (_, l, r) => notFoEq l && notFoEq r
     | none => true)
